@@ -242,6 +242,21 @@ def run(ck, F):
     from symex import Sym as _Sym
     c14.index_discipline(ck, F, _Sym(F, opaque=contracts.default_opaque(F), max_depth=48), c14.concrete_classes(F), rid='C19.index-discipline')
 
+    # what a node refers to outlives the call that built it
+    R_cs = ck.rule('C19.no-reference-to-call-storage', 'no reference or pointer member of an object that outlives the factory call (a node in a pool or a '
+                   'table) designates storage of the call itself -- a parameter taken by value, a local or a temporary: after the call '
+                   'returns such a member dangles (it reads a dead stack slot, and two nodes built that way alias each other)', floor=200)
+    import history as _history
+    import wire as _wire
+    from symex import Sym as _Sym2
+    _S2 = _Sym2(F, opaque=contracts.default_opaque(F), max_depth=64)
+    for _f in sorted(_wire.all_factories(F), key=lambda f: f['id']):
+        _r = _history.call_storage_refs(F, _S2, _f)
+        _sid = '::'.join(contracts.fn_qname(_f['id']).split('::')[-2:]) + '/' + str(len(_f['params']))
+        if _r is None:
+            continue
+        ck.check(R_cs, _sid, not _r, f'{_f["id"]}: ' + '; '.join(_r[:3]), loc=_f['loc'], fn=_f['id'])
+
     # nothing that outlives a Lexicon refers to storage the Lexicon owns
     R9 = ck.rule('C19.no-static-alias-of-owned-storage', 'no object of static storage duration (namespace scope, static member, '
                  'function-local static) is bound at run time to storage owned by a Lexicon: each is constant-initialised, and no '
